@@ -429,6 +429,13 @@ func (r *Rel) Normalize() Rel {
 		return *r
 	}
 
+	// Different pairs of names can have the same concatenation (type "ab" +
+	// name "c" and type "a" + name "bc"). Break the tie with the type name
+	// so that a relationship and its inverse get the same normal form.
+	if from == to && r.FromType <= r.ToType {
+		return *r
+	}
+
 	return r.Invert()
 }
 
